@@ -349,6 +349,59 @@ func runC10(c *Check) {
 		}
 	})
 	c.Sample(map[string]interface{}{"graph": graphs[len(graphs)/2].String(), "files": graphs[len(graphs)/2].files()})
+	c10TwinModules(c, pool)
+}
+
+// c10TwinModules: two different modules with byte-identical text (copies of one file in two directories), each shared by
+// its own pair of entry points, each with its own state. Under name templates without [hash] and whitespace
+// minification their shared chunks get the same path and the same bytes: the build must either report the collision or
+// keep two module instances; all chunk/entry name templates x minify x load orders, against native loading.
+func c10TwinModules(c *Check, pool *NodePool) {
+	root := scratchRoot("c10t")
+	defer os.RemoveAll(root)
+	counter := "export const state = { n: 0 };\nlog('init counter');\n"
+	files := map[string]string{"x/counter.mjs": counter, "y/counter.mjs": counter}
+	for _, e := range []struct{ name, dir string }{{"a", "x"}, {"b", "x"}, {"c", "y"}, {"d", "y"}} {
+		files[e.name+".mjs"] = "import { state } from './" + e.dir + "/counter.mjs';\nstate.n++;\nlog('" + e.name + "', state.n);\n"
+	}
+	orders := [][]string{{"a", "c"}, {"c", "a"}, {"a", "b", "c", "d"}, {"d", "a", "c", "b"}}
+	writeTree(root, files)
+	for _, chunkNames := range []string{"", "[name]", "chunks/[name]", "[name]-[hash]", "[hash]"} {
+		for _, minify := range []bool{false, true} {
+			r := api.Build(api.BuildOptions{AbsWorkingDir: root, EntryPoints: []string{"a.mjs", "b.mjs", "c.mjs", "d.mjs"}, Bundle: true, Splitting: true, Format: api.FormatESModule, Write: false,
+				Outdir: "out", OutExtension: map[string]string{".js": ".mjs"}, ChunkNames: chunkNames, MinifyWhitespace: minify, LogLevel: api.LogLevelSilent})
+			c.Eval(1)
+			if len(r.Errors) > 0 {
+				c.Sub("twin_modules_collision_reported", 1)
+				continue
+			}
+			out := map[string]string{}
+			for _, f := range r.OutputFiles {
+				rel, _ := filepath.Rel(filepath.Join(root, "out"), f.Path)
+				out[filepath.ToSlash(rel)] = string(f.Contents)
+			}
+			for _, ord := range orders {
+				drv := ""
+				for _, e := range ord {
+					drv += "await import('./" + e + ".mjs');\n"
+				}
+				nat := map[string]string{"driver.mjs": drv}
+				for k, v := range files {
+					nat[k] = v
+				}
+				bun := map[string]string{"driver.mjs": drv}
+				for k, v := range out {
+					bun[k] = v
+				}
+				res := nodeGraph(pool.Get(0), []graphCase{{Files: nat, Entry: "driver.mjs", How: "import"}, {Files: bun, Entry: "driver.mjs", How: "import"}})
+				c.Sub("twin_module_cases", 1)
+				if strings.Join(res[0].Log, "\n") != strings.Join(res[1].Log, "\n") || (res[0].Err == nil) != (res[1].Err == nil) {
+					c.Violation(fmt.Sprintf("twin-modules:chunk-names=%q:minify-whitespace=%v:%s", chunkNames, minify, strings.Join(ord, ",")), map[string]interface{}{"kind": "two modules with identical text do not keep separate instances in the split build",
+						"chunk_names": chunkNames, "minify_whitespace": minify, "load_order": ord, "native": res[0].String(), "split": res[1].String(), "outputs": keysSorted(out)})
+				}
+			}
+		}
+	}
 }
 
 func c10SurfaceValues(s *string, names []string) string {
